@@ -644,6 +644,64 @@ fn disk_seq<K: CacheKey + 'static>(cx: &mut Ctx<'_>, hashed: bool, short: bool, 
     }
 }
 
+thread_local! {
+    // Runtime for the disk cache built with its background tasks: tokio's clock is paused, so the
+    // cleanup task runs exactly when a step advances the clock past its interval.
+    static PAUSED_RT: tokio::runtime::Runtime = tokio::runtime::Builder::new_current_thread().enable_all().start_paused(true).build().expect("tokio runtime (paused clock)");
+}
+
+/// The instance built with `new_with_background_tasks` (what the multi-layer cache uses): the
+/// cleanup task removes expired entries and, above `max_files`, evicts — both by deleting files.
+/// Sequence: an entry that is expired at once, a cleanup pass, two live entries over
+/// `max_files = 1`, another cleanup pass, a look from a second instance.
+fn disk_background_seq<K: CacheKey + 'static>(cx: &mut Ctx<'_>, mk: &dyn Fn() -> K, other: &dyn Fn() -> K) {
+    use std::time::Duration;
+    let root = cx.sb().root.clone();
+    let interval = Duration::from_secs(300);
+    let mut cfg = disk_cfg(&root, false).with_max_files(1);
+    cfg.cleanup_interval = interval;
+    cfg.sync_interval = Duration::from_secs(10 * 365 * 24 * 3600);
+    let on_rt = |f: &mut dyn FnMut() -> OpRes| -> OpRes { PAUSED_RT.with(|rt| rt.block_on(async { f() })) };
+    let Ok(c1) = PAUSED_RT.with(|rt| rt.block_on(async { DiskCache::<K>::new_with_background_tasks(cfg.clone()) })) else { return };
+    let tick = || {
+        PAUSED_RT.with(|rt| {
+            rt.block_on(async {
+                tokio::time::advance(interval + Duration::from_secs(1)).await;
+                for _ in 0..3 {
+                    tokio::task::yield_now().await;
+                }
+            });
+        });
+        OpRes::new("tick")
+    };
+    let _ = on_rt;
+    let put = |c: &DiskCache<K>, k: K, ttl: Option<Duration>| -> OpRes {
+        let r = PAUSED_RT.with(|rt| {
+            rt.block_on(async {
+                match ttl {
+                    Some(t) => c.put_with_ttl(k, Bytes::from_static(VALUE), t).await,
+                    None => c.put(k, Bytes::from_static(VALUE)).await,
+                }
+            })
+        });
+        match r {
+            Ok(()) => OpRes::new("ok"),
+            Err(e) => OpRes::new(err_class(&e)),
+        }
+    };
+    cx.step("put_with_ttl(0)", || put(&c1, mk(), Some(Duration::ZERO)));
+    cx.mark_nontrivial_if_root_used();
+    cx.step("cleanup-pass", tick);
+    cx.step("put", || put(&c1, mk(), None));
+    cx.mark_nontrivial_if_root_used();
+    cx.step("put-other", || put(&c1, other(), None));
+    cx.step("cleanup-pass-2", tick);
+    cx.step("get", || get_res(PAUSED_RT.with(|rt| rt.block_on(c1.get(&mk())))));
+    if let Ok(c2) = DiskCache::<K>::new(disk_cfg(&root, false)) {
+        cx.step("get-reopened", || get_res(block_on(c2.get(&mk()))));
+    }
+}
+
 fn ck(n: u8) -> ContentKey {
     let mut b = [0x11u8; 16];
     b[15] = n;
@@ -833,9 +891,10 @@ fn dl_res(r: Result<Vec<u8>, ProtocolError>) -> OpRes {
 // surfaces taking a test string
 // ---------------------------------------------------------------------------------------
 
-pub const STRING_SURFACES: [&str; 9] = [
+pub const STRING_SURFACES: [&str; 10] = [
     "DiskCache(flat)",
     "DiskCache(hashed)",
+    "DiskCache(background)",
     "DiskCache-typed",
     "ProtocolCache",
     "RibbitTactClient::query",
@@ -853,7 +912,7 @@ fn witness(surface: &str, s: &str, extra: Value) -> Value {
 /// Run every call sequence of one surface for one string. `typed_depth_ok` limits the typed
 /// fields surface (see bounds).
 pub fn run_string_surface(surface: &str, s: &str, typed_short: bool, out: &mut CaseOut) {
-    let embedded = !matches!(surface, "DiskCache(flat)" | "DiskCache(hashed)" | "ProtocolCache" | "Storage::open_installation");
+    let embedded = !matches!(surface, "DiskCache(flat)" | "DiskCache(hashed)" | "DiskCache(background)" | "ProtocolCache" | "Storage::open_installation");
     let class = class_of(s, embedded);
     if climbs(s) > MAX_CLIMB {
         // cannot happen with ≤ 4 tokens; never run a string that could leave the scratch dir
@@ -866,6 +925,11 @@ pub fn run_string_surface(surface: &str, s: &str, typed_short: bool, out: &mut C
             let mut cx = Ctx::new(surface, s, class, witness(surface, s, Value::Null), out);
             let k = cx.sb().eff(s);
             disk_seq(&mut cx, hashed, false, &|| RawKey(k.clone()));
+        }
+        "DiskCache(background)" => {
+            let mut cx = Ctx::new(surface, s, class, witness(surface, s, Value::Null), out);
+            let k = cx.sb().eff(s);
+            disk_background_seq(&mut cx, &|| RawKey(k.clone()), &|| RawKey("zz-other".to_string()));
         }
         "DiskCache-typed" => {
             for field in TYPED_FIELDS {
@@ -1577,10 +1641,19 @@ fn absorb(rep: &Report, out: CaseOut) {
     }
 }
 
+/// The background sync task of `DiskCache` runs `sync(1)` on its first tick; with an empty PATH the
+/// spawn fails and the task carries on (same arrangement as C10 and C12). Nothing else in this
+/// check starts a program.
+fn disable_sync_command() {
+    // SAFETY: called at the start of `run` / `replay`, before any other thread of the check exists.
+    unsafe { std::env::set_var("PATH", "/nonexistent-c20") };
+}
+
 pub fn run(tier: Tier, seed: u64) -> i32 {
+    disable_sync_command();
     let rep = Report::new("C20", tier, seed, Level::Exploration);
     rep.set_rule(
-        "every string of ≤ k tokens from the path-significant alphabet (joined with and without '/', deduplicated; typed-field surfaces: full sequence in both layouts for one token less; network-shaped surfaces: one token less) × every string-taking surface (DiskCache raw keys in both directory layouts, every string field of every typed key in both layouts, ProtocolCache, RibbitTactClient::query, CdnClient endpoint path, CdnClient archive key, RangeDownloader archive name, Storage::open_installation), each a fixed call sequence in a fresh sandbox with a snapshot of everything outside the configured directory after every call; plus content keys of every length 0..=32 × 3 content types × 7 CdnClient calls, the 3×3 offset/length grid, boundary fixed-width binary keys, and every ordered pair of distinct keys from a universe of well-formed typed keys / endpoint-like names in both layouts, and every ordered pair of distinct accepted endpoints (product segments differing only in '_', '-', '.', '/', case) through RibbitTactClient::query on one cache directory against a mock whose answers name the request target. evaluations = calls of the code under test; a (surface, string) case is non-trivial when the calls left at least one file under the configured directory or changed something outside it",
+        "every string of ≤ k tokens from the path-significant alphabet (joined with and without '/', deduplicated; typed-field surfaces: full sequence in both layouts for one token less; network-shaped surfaces: one token less) × every string-taking surface (DiskCache raw keys in both directory layouts and on the instance built with its background tasks — an expired entry and an entry over max_files, each followed by a cleanup pass on a paused clock —, every string field of every typed key in both layouts, ProtocolCache, RibbitTactClient::query, CdnClient endpoint path, CdnClient archive key, RangeDownloader archive name, Storage::open_installation), each a fixed call sequence in a fresh sandbox with a snapshot of everything outside the configured directory after every call; plus content keys of every length 0..=32 × 3 content types × 7 CdnClient calls, the 3×3 offset/length grid, boundary fixed-width binary keys, and every ordered pair of distinct keys from a universe of well-formed typed keys / endpoint-like names in both layouts, and every ordered pair of distinct accepted endpoints (product segments differing only in '_', '-', '.', '/', case) through RibbitTactClient::query on one cache directory against a mock whose answers name the request target. evaluations = calls of the code under test; a (surface, string) case is non-trivial when the calls left at least one file under the configured directory or changed something outside it",
     );
     rep.assume("absolute test strings are re-rooted at <sandbox>/absroot (an absolute path outside the configured directory) so that the run itself never leaves its scratch directory; Path::join treats every absolute argument alike");
     rep.assume("network-shaped APIs run against a loopback HTTP mock that answers every request with 200 and a small BPSV body; CDN host strings are not varied (host never reaches a path or cache key; bare names would need DNS)");
@@ -1832,6 +1905,7 @@ fn replay_sigs(w: &Value, verbose: bool) -> Vec<String> {
 }
 
 pub fn replay(w: &Value) -> i32 {
+    disable_sync_command();
     crate::util::install_quiet_panic_hook();
     let wit = &w["witness"];
     println!("replaying {}", wit);
